@@ -39,6 +39,35 @@ def mk_static(name, D1, D2, opn, tag, ndebug):
                   tags={"op": opn, "tag": tag, "form": "static_integer", "ndebug": ndebug})
 
 
+OTHER = {"rem": ("cnl::_impl::modulo_op", "%"), "shr": ("cnl::_impl::shift_right_op", ">>"),
+         "and": ("cnl::_impl::bitwise_and_op", "&"), "or": ("cnl::_impl::bitwise_or_op", "|"), "xor": ("cnl::_impl::bitwise_xor_op", "^")}
+
+
+def mk_other(name, opn, L, R, tag, form, ndebug=False):
+    """operators that C06's outcome table does not cover (their exact result always fits) but that C07's
+    'operations performed under the checked tags' does: %, >>, &, |, ^ -- only the defined-behaviour claims apply"""
+    opt, o = OTHER[opn]
+    RES = promote(L) if opn == "shr" else usual(promote(L), promote(R))
+    T = c06.TAGS[tag]
+    if form == "operate":
+        body = "    return cnl::_impl::operate<%s, %s>{}(a, b);" % (opt, T)
+    else:
+        body = ("    auto r = cnl::overflow_integer<%s, %s>{a} %s cnl::overflow_integer<%s, %s>{b};\n"
+                "    return cnl::unwrap(r);") % (cpp(L), T, o, cpp(R), T)
+
+    def pre(env):
+        if opn == "rem":
+            return X.ne(env.a["b"], 0)
+        if opn == "shr":
+            return env.a["b"] >= 0
+        return True
+    return Kernel(name, [("a", L), ("b", R)], RES, body, mode="bv", W=max(bits(L), bits(R), bits(RES)) + 8,
+                  views=("gcc", "clang"), pre=pre, claims=c06.mk_claims(tag, None, RES, "C07"), ndebug=ndebug,
+                  desc="%s %s %s [%s] (%s)%s" % (L, o, R, tag, form, " NDEBUG" if ndebug else ""),
+                  tags={"op": opn, "L": L, "R": R, "tag": tag, "form": form, "res": RES, "Ls": signed(L), "Rs": signed(R),
+                        "ndebug": ndebug})
+
+
 def kernels(opts):
     specs = c06.specs_for(opts, "C07")
     ks = c06.build(specs, "C07")
@@ -60,4 +89,17 @@ def kernels(opts):
                         continue
                     ks.append(mk_static("S%d" % i, D1, D2, opn, tag, ndebug))
                     i += 1
+    # %, >>, &, |, ^ under the checked tags
+    j = 0
+    pairs = [("i32", "i32"), ("i64", "i64"), ("i32", "i8"), ("i64", "i32"), ("u32", "u32"), ("i16", "u8"), ("u64", "i32"), ("i8", "i8")]
+    for tag in STAT:
+        for opn in OTHER:
+            for (L, R) in pairs:
+                if opts["tier"] == "quick" and opn in ("and", "or", "xor") and (L, R) not in (("i32", "i32"), ("u64", "i32")):
+                    continue
+                for form in ("operate", "overflow_integer"):
+                    if form == "overflow_integer" and opts["tier"] == "quick" and (L, R) not in (("i32", "i32"), ("i64", "i32")):
+                        continue
+                    ks.append(mk_other("O%d" % j, opn, L, R, tag, form))
+                    j += 1
     return ks
